@@ -477,7 +477,6 @@ def _check_find_config(ctx: Ctx) -> None:
     repo, prog = ctx.repo, ctx.prog
     fi = repo.func("flowmark.config:find_config_file")
     flow = prog.flow(fi)
-    const = repo.module("flowmark.config").defs.get("_CONFIG_FILENAMES")
     fors = [h for h in flow.cfg.nodes if h.kind == "for"]
     name_loop = None
     names: list[str] | None = None
@@ -558,18 +557,19 @@ def _check_find_config(ctx: Ctx) -> None:
 def _check_kebab(ctx: Ctx, cfg_fields: list[str]) -> None:
     repo = ctx.repo
     mod = repo.module("flowmark.config")
-    d = mod.defs.get("_KEBAB_TO_SNAKE")
-    if not isinstance(d, ConstInfo) or not isinstance(d.value, ast.Dict):
-        raise AnalysisError("anchor vanished: _KEBAB_TO_SNAKE dict literal")
+    from .. import anchors
+
+    d = anchors.kebab_table(ctx)
     n = 0
     for k, v in zip(d.value.keys, d.value.values):
         if isinstance(k, ast.Constant) and isinstance(v, ast.Constant):
             n += 1
             ok = v.value in cfg_fields and v.value == k.value.replace("-", "_")
-            ctx.ob("R-CONFIG-K7", f"flowmark.config:_KEBAB_TO_SNAKE[{k.value!r}]", ok,
+            ctx.ob("R-CONFIG-K7", f"flowmark.config :: kebab table [{k.value!r}]", ok,
                    f"kebab key `{k.value}` must map to the config field `{k.value.replace('-', '_')}` (maps to `{v.value}`)", where(mod, k))
     # every multi-word field is reachable from its kebab spelling: table entry or generic fallback
-    parse = repo.func("flowmark.config:_parse_config_data") if "flowmark.config:_parse_config_data" in repo.functions else None
+    parse = anchors.parse_config_function(ctx)
+    vf = anchors.valid_fields_const(ctx, parse)
     fallback = False
     if parse is not None:
         for c in walk_no_nested(parse.node):
@@ -589,15 +589,15 @@ def _check_kebab(ctx: Ctx, cfg_fields: list[str]) -> None:
         for pn in prints:
             # the warning is printed exactly where the key is known not to be a valid field
             for a, truth in must_atoms(flow.control_deps(pn)):
-                if isinstance(a, ast.Compare) and len(a.ops) == 1 and "_VALID_FIELDS" in ast.unparse(a.comparators[0]):
+                if isinstance(a, ast.Compare) and len(a.ops) == 1 and vf is not None and isinstance(a.comparators[0], ast.Name) \
+                        and repo.lookup(a.comparators[0].id, parse.module, parse) is vf:
                     if (isinstance(a.ops[0], ast.In) and not truth) or (isinstance(a.ops[0], ast.NotIn) and truth):
                         ok = True
         ctx.ob("R-CONFIG-K7", f"{parse.qual} :: unknown keys warn", ok,
                "a key that is not a FlowmarkConfig field must produce a warning (so 'accepted without warning' == fields(FlowmarkConfig))",
                where(parse, parse.node))
-        vf = mod.defs.get("_VALID_FIELDS")
         okv = isinstance(vf, ConstInfo) and vf.value is not None and "fields(FlowmarkConfig)" in ast.unparse(vf.value)
-        ctx.ob("R-CONFIG-K7", "flowmark.config:_VALID_FIELDS", bool(okv), "_VALID_FIELDS must be derived from fields(FlowmarkConfig)", where(mod, vf.assigns[0] if isinstance(vf, ConstInfo) else mod.tree))
+        ctx.ob("R-CONFIG-K7", "flowmark.config :: accepted field names", bool(okv), "the set of accepted keys must be derived from fields(FlowmarkConfig)", where(mod, vf.assigns[0] if isinstance(vf, ConstInfo) else mod.tree))
 
 
 def _check_main_wiring(ctx: Ctx, main: FuncInfo, merge: FuncInfo) -> None:
@@ -620,7 +620,11 @@ def _check_main_wiring(ctx: Ctx, main: FuncInfo, merge: FuncInfo) -> None:
     corg = origins(prog, main, b.get("config"), mn) if b.get("config") is not None else frozenset()
     ctx.ob("R-CONFIG-K8", f"{main.qual} -> {merge.qual} :: config", corg == frozenset({("call", "flowmark.config:load_config")}),
            "the merged config must be the loaded config file", where(main, mc))
-    consumers = [n for n, c in flow.all_calls() if call_name(prog, main, c) in ("flowmark.cli:_resolve_files", "flowmark.reformat_api:reformat_files")]
+    from .. import anchors
+
+    rf = anchors.resolve_files_function(ctx)
+    consumer_quals = {"flowmark.reformat_api:reformat_files"} | ({rf.qual} if rf is not None else set())
+    consumers = [n for n, c in flow.all_calls() if call_name(prog, main, c) in consumer_quals]
     ctx.require("R-CONFIG-K8", "consumers of the merged options in main", len(consumers), 1)
     for cn in consumers:
         before = flow.cfg.path_avoiding(mn, cn, set()) is not None and flow.cfg.path_avoiding(cn, mn, set()) is None
